@@ -275,6 +275,10 @@ fn parse_and_compare(text: &str, expected: &AstNode, names: &BTreeSet<String>) -
 /// Defect-class diagnosis: a known class is recognised by the shape of the text that fails, so that
 /// a finding is identified by its cause and any other failure keeps a specific key of its own.
 fn diagnose(text: &str, layout: Layout, t: &T) -> Option<&'static str> {
+  // (6) only one comment is skipped between two tokens
+  if matches!(layout, Layout::TwoComments) {
+    return Some("layout:two-comments-in-a-row-between-two-tokens");
+  }
   // (1) `function` must be followed by `(` after white space only: a comment there is rejected
   if matches!(layout, Layout::BlockComments | Layout::LineComments) && contains_function(t) {
     return Some("layout:comment-between-function-keyword-and-parenthesis");
@@ -400,7 +404,7 @@ fn callee_is_keyword_literal(t: &T) -> bool {
 
 fn check_tree(run: &Run, label: &str, t: &T, names: &BTreeSet<String>, counters: &Counters) {
   let expected = to_ast(t);
-  let layouts = [Layout::Spaced, Layout::Compact, Layout::Double, Layout::NewlinesTabs, Layout::BlockComments, Layout::LineComments, Layout::EveryWhiteSpace, Layout::LongRuns];
+  let layouts = [Layout::Spaced, Layout::Compact, Layout::Double, Layout::NewlinesTabs, Layout::BlockComments, Layout::LineComments, Layout::EveryWhiteSpace, Layout::LongRuns, Layout::TwoComments];
   for mode in [Mode::Full, Mode::Minimal] {
     for layout in layouts {
       let text = render(t, mode, layout);
@@ -737,7 +741,7 @@ pub fn run() {
   run.set("traces_validated_against_impl", json!(parses + lit_count + ut_count));
   run.set("evaluations", json!(parses + lit_count + ut_count));
   run.set("distinct_nontrivial", json!(distinct_texts.len()));
-  run.set("rule", json!("distinct minimal renderings of trees with at least one operator (depth-2: every constructor in every slot of every constructor; depth-3: every ordered triple along every slot of the outer and the middle constructor; sibling pairs: two slots of one constructor filled by every ordered pair; thorough adds depth-4 spines along the first / last slot); each is parsed in 2 parenthesisations x 8 layouts plus one text per needed parenthesis pair"));
+  run.set("rule", json!("distinct minimal renderings of trees with at least one operator (depth-2: every constructor in every slot of every constructor; depth-3: every ordered triple along every slot of the outer and the middle constructor; sibling pairs: two slots of one constructor filled by every ordered pair; thorough adds depth-4 spines along the first / last slot); each is parsed in 2 parenthesisations x 9 layouts plus one text per needed parenthesis pair"));
   run.set("exhaustive", json!(true));
   run.set("depth2_trees", json!(d2));
   run.set("depth3_spines", json!(d3));
